@@ -58,6 +58,10 @@ OBS = {
              lambda r, a: (len(r), sum(len(q) for q in r), [len(q) for q in r], [len(q) for q in r], _CUR["dtype"] if sum(len(q) for q in r) else "any")),
     "repr": (lambda x, a: repr(x), None),
     "str": (lambda x, a: str(x), None),
+    "mean1": (lambda x, a: x.mean(axis=-1).tolist(), None),
+    "mean0": (lambda x, a: x.mean(axis=0).tolist(), None),
+    "all1": (lambda x, a: x.all(axis=-1).tolist(), lambda r, a: [all(v != 0 for v in q) for q in r]),
+    "min1": (lambda x, a: [v for v, l in zip(x.min(axis=-1).tolist(), np.asarray(x.lengths).tolist()) if l], lambda r, a: [min(q) for q in r if q]),
     "sum1": (lambda x, a: x.sum(axis=-1).tolist(), lambda r, a: [sum(q) for q in r]),
     "npsum1": (lambda x, a: np.sum(x, axis=-1).tolist(), lambda r, a: [sum(q) for q in r]),
     "sumall": (lambda x, a: np.sum(x), lambda r, a: sum(v for q in r for v in q)),
@@ -102,7 +106,7 @@ READ_OPS = [k for k in OBS]
 # observations whose result on float data (NaN, inf, -0.0, non-dyadic values) is defined element by element, hence exactly predictable
 FLOAT_OBS = ["tolist", "iter", "ravel", "meta", "repr", "str", "row", "elem", "rowscol", "pairs", "ell", "empty", "maskidx", "subset", "padded", "nonzero", "add1", "sel", "rslice",
              "getcol", "colcounts", "tonp", "astype", "concatself", "zeros", "diff", "save"]
-FLOAT_READS = FLOAT_OBS + ["sum1", "npsum1", "sumall", "any1", "eqself", "where", "max1", "sort", "unique"]     # fine as *inserted reads* (no model opinion needed)
+FLOAT_READS = FLOAT_OBS + ["sum1", "npsum1", "sumall", "any1", "eqself", "where", "max1", "sort", "unique", "mean1", "mean0", "all1", "min1"]     # fine as *inserted reads* (no model opinion needed)
 FLOAT_POOL = [0.1, 0.7, 1e17, 1.0, -2.5, 3.25, float("inf"), float("nan"), -0.0, 0.3, 123456.789, -1e-7, float("-inf"), 2.0]
 
 
@@ -112,7 +116,7 @@ def obs_applicable(name, rows):
     n = len(rows)
     lens = [len(r) for r in rows]
     tot = sum(lens)
-    if name in ("sum0", "colcounts", "getcol"):
+    if name in ("sum0", "colcounts", "getcol", "mean0"):
         return tot > 0
     if name in ("row",):
         return n > 0
